@@ -80,6 +80,11 @@ package executor
 //@   ensures old(s.intx) ==> len(s.keys) == old(len(s.keys)) + 1 && s.keys[old(len(s.keys))] == bytes(key)
 //@   ensures old(s.intx) ==> forall j :: 0 <= j && j < old(len(s.keys)) ==> s.keys[j] == old(s.keys[j])
 //@   ensures !old(s.intx) ==> len(s.keys) == old(len(s.keys))
+//@   requires s.cache != nil && s.txcache != nil && s.cache.data != s.txcache.data
+//@   ensures old(s.intx) ==> has(s.txcache.data, bytes(key)) && s.txcache.data[bytes(key)] == value
+//@   ensures old(s.intx) ==> forall k Bytes :: has(s.cache.data, k) == old(has(s.cache.data, k)) && s.cache.data[k] == old(s.cache.data[k])
+//@   ensures !old(s.intx) ==> has(s.cache.data, bytes(key)) && s.cache.data[bytes(key)] == value
+//@   ensures !old(s.intx) ==> forall k Bytes :: has(s.txcache.data, k) == old(has(s.txcache.data, k))
 
 //@ func (*StateDB).StartTx [C11,C12]
 //@   ensures len(s.keys) == 0
@@ -87,3 +92,157 @@ package executor
 //@ func (*StateDB).GetSetKeys [C11,C12]
 //@   frame nothing
 //@   ensures result == s.keys
+
+// ---- C11: a failed transaction leaves nothing behind -------------------------------------------------
+// The two per-block databases buffer a transaction's writes in an overlay (txcache) over the block's
+// cache; the overlay is merged on Commit and dropped on Rollback.
+
+//@ func (*cacheDB).Get [C11]
+//@   frame nothing
+//@   ensures result1 <==> db.data != nil && has(db.data, bytes(key))
+//@   ensures result2 == nil <==> db.data != nil && has(db.data, bytes(key)) && !isnil(db.data[bytes(key)])
+//@   ensures result2 == nil ==> result0 == db.data[bytes(key)]
+
+//@ func (*cacheDB).Set [C11]
+//@   opt safety=assumed
+//@   frame map:string|[]uint8@db.data
+//@   ensures has(db.data, bytes(key)) && db.data[bytes(key)] == value
+//@   ensures forall k Bytes :: k != bytes(key) ==> has(db.data, k) == old(has(db.data, k)) && db.data[k] == old(db.data[k])
+
+//@ func (*cacheDB).Reset [C11]
+//@   frame map:string|[]uint8@db.data
+//@   ensures forall k Bytes :: !has(db.data, k)
+//@   loop 0 invariant forall k Bytes :: visited(k) ==> !has(db.data, k)
+//@   loop 0 invariant othermaps(db.data)
+
+//@ func (*cacheDB).Merge [C11]
+//@   opt safety=assumed
+//@   requires db.data != db2.data
+//@   frame map:string|[]uint8@db.data
+//@   ensures forall k Bytes :: has(db2.data, k) ==> has(db.data, k) && db.data[k] == db2.data[k]
+//@   ensures forall k Bytes :: !has(db2.data, k) ==> has(db.data, k) == old(has(db.data, k)) && db.data[k] == old(db.data[k])
+//@   loop 0 invariant forall k Bytes :: visited(k) ==> has(db2.data, k) && has(db.data, k) && db.data[k] == db2.data[k]
+//@   loop 0 invariant forall k Bytes :: !visited(k) ==> has(db.data, k) == old(has(db.data, k)) && db.data[k] == old(db.data[k])
+//@   loop 0 invariant othermaps(db.data)
+
+//@ pure func github.com/33cn/chain33/types.AssertConfig
+//@ pure func (github.com/33cn/chain33/queue.Client).GetConfig
+
+// StateDB: view(s) = (intx ? txcache : {}) over cache over the store at stateHash.
+// Set: into the overlay while a transaction is open, else into the cache.
+// (the contract of Set is with C12's clauses above)
+
+// reads: overlay first (only while a transaction is open), then the cache
+//@ func (*StateDB).get [C11]
+//@   opt safety=assumed panics=allowed
+//@   requires s.cache != nil && s.txcache != nil && s.cache.data != s.txcache.data
+//@   ensures old(s.intx && has(s.txcache.data, bytes(key)) && !isnil(s.txcache.data[bytes(key)])) ==> result1 == nil && result0 == old(s.txcache.data[bytes(key)])
+//@   ensures old(s.intx && has(s.txcache.data, bytes(key)) && isnil(s.txcache.data[bytes(key)])) ==> result1 != nil
+//@   ensures old(!(s.intx && has(s.txcache.data, bytes(key))) && has(s.cache.data, bytes(key)) && !isnil(s.cache.data[bytes(key)])) ==> result1 == nil && result0 == old(s.cache.data[bytes(key)])
+//@   ensures old(!(s.intx && has(s.txcache.data, bytes(key))) && has(s.cache.data, bytes(key)) && isnil(s.cache.data[bytes(key)])) ==> result1 != nil
+
+// Begin opens a transaction with an empty overlay; the cache is untouched
+//@ func (*StateDB).Begin [C11]
+//@   opt safety=assumed
+//@   requires s.cache != nil && s.txcache != nil && s.cache.data != s.txcache.data
+//@   ensures s.intx && len(s.keys) == 0
+//@   ensures ret(IsFork) ==> forall k Bytes :: !has(s.txcache.data, k)
+//@   ensures forall k Bytes :: has(s.cache.data, k) == old(has(s.cache.data, k)) && s.cache.data[k] == old(s.cache.data[k])
+//@   ensures s.cache == old(s.cache) && s.txcache == old(s.txcache)
+
+// Rollback drops the overlay and nothing else: every read is again what it was before Begin
+//@ func (*StateDB).resetTx [C11]
+//@   opt safety=assumed
+//@   frame StateDB.intx, StateDB.keys, map:string|[]uint8@s.txcache.data
+//@   requires s.cache != nil && s.txcache != nil && s.cache.data != s.txcache.data
+//@   ensures !s.intx && len(s.keys) == 0
+//@   ensures forall k Bytes :: !has(s.txcache.data, k)
+//@   ensures forall k Bytes :: has(s.cache.data, k) == old(has(s.cache.data, k)) && s.cache.data[k] == old(s.cache.data[k])
+//@   ensures s.cache == old(s.cache) && s.txcache == old(s.txcache)
+//@ func (*StateDB).Rollback [C11]
+//@   opt safety=assumed
+//@   requires s.cache != nil && s.txcache != nil && s.cache.data != s.txcache.data
+//@   ensures !s.intx && len(s.keys) == 0
+//@   ensures forall k Bytes :: !has(s.txcache.data, k)
+//@   ensures forall k Bytes :: has(s.cache.data, k) == old(has(s.cache.data, k)) && s.cache.data[k] == old(s.cache.data[k])
+//@   ensures s.cache == old(s.cache) && s.txcache == old(s.txcache)
+
+// Commit merges the overlay into the cache: exactly the overlay's keys change, to the overlay's values
+//@ func (*StateDB).Commit [C11]
+//@   opt safety=assumed
+//@   requires s.cache != nil && s.txcache != nil && s.cache.data != s.txcache.data
+//@   ensures result == nil && !s.intx && len(s.keys) == 0
+//@   ensures forall k Bytes :: old(has(s.txcache.data, k)) ==> has(s.cache.data, k) && s.cache.data[k] == old(s.txcache.data[k])
+//@   ensures forall k Bytes :: !old(has(s.txcache.data, k)) ==> has(s.cache.data, k) == old(has(s.cache.data, k)) && s.cache.data[k] == old(s.cache.data[k])
+//@   ensures ret(IsFork) ==> forall k Bytes :: !has(s.txcache.data, k)
+
+// executor.LocalDB: the same overlay scheme, plus a buffer (kvs) of writes that still have to be sent
+// to the blockchain module's database. kvs[txkvs:] are the writes of the open transaction.
+//@ pure func (github.com/33cn/chain33/client.QueueProtocolAPI).LocalBegin
+//@ pure func (github.com/33cn/chain33/client.QueueProtocolAPI).LocalSet
+//@ pure func (github.com/33cn/chain33/client.QueueProtocolAPI).LocalCommit
+//@ pure func (github.com/33cn/chain33/client.QueueProtocolAPI).LocalRollback
+
+//@ func (*LocalDB).Set [C11]
+//@   opt safety=assumed overflow=assumed
+//@   requires l.cache != nil && l.txcache != nil && l.cache.data != l.txcache.data
+//@   ensures !old(l.disablewrite) ==> result == nil && len(l.kvs) == old(len(l.kvs)) + 1
+//@   ensures !old(l.disablewrite) ==> l.kvs[old(len(l.kvs))].Key == key && l.kvs[old(len(l.kvs))].Value == value
+//@   ensures !old(l.disablewrite) ==> forall j :: 0 <= j && j < old(len(l.kvs)) ==> l.kvs[j] == old(l.kvs[j])
+//@   ensures l.txkvs == old(l.txkvs) && l.intx == old(l.intx)
+//@   ensures old(l.disablewrite) ==> result != nil && len(l.kvs) == old(len(l.kvs))
+//@   ensures !old(l.disablewrite) && old(l.intx) ==> has(l.txcache.data, bytes(key)) && l.txcache.data[bytes(key)] == value
+//@   ensures old(l.intx) ==> forall k Bytes :: has(l.cache.data, k) == old(has(l.cache.data, k)) && l.cache.data[k] == old(l.cache.data[k])
+
+//@ func (*LocalDB).Begin [C11]
+//@   opt safety=assumed
+//@   requires l.cache != nil && l.txcache != nil && l.cache.data != l.txcache.data
+//@   ensures l.intx && !l.hasbegin && l.txkvs == len(l.kvs)
+//@   ensures l.kvs == old(l.kvs)
+//@   ensures forall k Bytes :: !has(l.txcache.data, k)
+//@   ensures forall k Bytes :: has(l.cache.data, k) == old(has(l.cache.data, k)) && l.cache.data[k] == old(l.cache.data[k])
+
+//@ func (*LocalDB).resetTx [C11]
+//@   opt safety=assumed
+//@   frame LocalDB.intx, LocalDB.keys, LocalDB.hasbegin, map:string|[]uint8@l.txcache.data
+//@   requires l.cache != nil && l.txcache != nil && l.cache.data != l.txcache.data
+//@   ensures !l.intx && !l.hasbegin && l.kvs == old(l.kvs)
+//@   ensures forall k Bytes :: !has(l.txcache.data, k)
+//@   ensures forall k Bytes :: has(l.cache.data, k) == old(has(l.cache.data, k)) && l.cache.data[k] == old(l.cache.data[k])
+
+// the first save of a transaction opens the remote transaction; every buffered write is sent, in order
+//@ func (*LocalDB).save [C11]
+//@   opt safety=assumed panics=allowed
+//@   frame allocates, LocalDB.kvs, LocalDB.hasbegin, LocalDB.txkvs
+//@   ensures result == nil ==> isnil(l.kvs) && (old(!isnil(l.kvs)) ==> l.hasbegin)
+//@   ensures result == nil && old(!isnil(l.kvs)) ==> called(LocalSet) && ret(LocalSet) == nil
+//@   ensures old(isnil(l.kvs)) ==> result == nil && l.hasbegin == old(l.hasbegin)
+//@   ensures old(isnil(l.kvs)) ==> !called(LocalSet)
+//@   ensures result == nil && old(!isnil(l.kvs)) ==> l.txkvs == 0
+//@   assert@call LocalSet: arg1.KV == old(l.kvs) && arg1.Txid == l.txid.Data
+//@   assert@call LocalSet: l.hasbegin
+
+// Rollback: the remote transaction (if one was opened) is rolled back and the writes of the
+// transaction that are still buffered are dropped: what remains to be sent is what was there at Begin
+//@ func (*LocalDB).Rollback [C11]
+//@   opt safety=assumed panics=allowed
+//@   requires l.cache != nil && l.txcache != nil && l.cache.data != l.txcache.data
+//@   ensures !l.intx && !l.hasbegin
+//@   ensures old(l.hasbegin) ==> called(LocalRollback) && ret(LocalRollback) == nil
+//@   ensures old(l.intx && l.txkvs <= len(l.kvs)) ==> len(l.kvs) == old(l.txkvs)
+//@   ensures old(l.intx && l.txkvs <= len(l.kvs)) ==> forall j :: 0 <= j && j < len(l.kvs) ==> l.kvs[j] == old(l.kvs[j])
+//@   ensures forall k Bytes :: !has(l.txcache.data, k)
+//@   ensures forall k Bytes :: has(l.cache.data, k) == old(has(l.cache.data, k)) && l.cache.data[k] == old(l.cache.data[k])
+
+// Commit: overlay merged, everything buffered is sent, the remote transaction is committed
+//@ func (*LocalDB).Commit [C11]
+//@   opt safety=assumed panics=allowed
+//@   requires l.cache != nil && l.txcache != nil && l.cache.data != l.txcache.data
+//@   ensures result == nil ==> !l.intx && !l.hasbegin && isnil(l.kvs)
+//@   ensures result == nil && old(!isnil(l.kvs)) ==> called(LocalCommit) && ret(LocalCommit) == nil
+//@   ensures forall k Bytes :: old(has(l.txcache.data, k)) ==> has(l.cache.data, k) && l.cache.data[k] == old(l.txcache.data[k])
+//@   ensures forall k Bytes :: !old(has(l.txcache.data, k)) ==> has(l.cache.data, k) == old(has(l.cache.data, k)) && l.cache.data[k] == old(l.cache.data[k])
+
+//@ func (*LocalDB).begin [C11]
+//@   opt safety=assumed panics=allowed
+//@   frame nothing
